@@ -22,7 +22,8 @@ Known on the pinned tree, F9: `_gradient` adds the violated constraints' outer p
 Because w is normalised to sum one, this is visible for every n_constraints >= 2 -- with non-uniform weights (signature
 'non-uniform weights') AND with equal weights 1/n, e.g. the default weights=None (signature 'equal weights'): the search
 direction is not the gradient of the accepted loss and the solver stops at points that are not stationary.
-Noted only (property C17): `_fit` normalises the CALLER's weights array in place (F4b); the stand-in passes copies.
+Noted only (property C17, finding F4b): `_fit` normalised the CALLER's weights array in place and, for the same reason, rejected
+lists (AttributeError) and integer arrays (UFuncTypeError); the stand-in passes copies and keeps the clause 'weights-accepted'.
 """
 import time
 import warnings
@@ -74,7 +75,7 @@ def fd_selftest(M, M0inv, vab, vcd, w, rng):
     E = rng.randn(*M.shape)
     E = (E + E.T) / 2
     E /= np.linalg.norm(E)
-    h = 1e-6 * lam_min
+    h = 3e-6 * lam_min
     fd = (objective(M + h * E, M0inv, vab, vcd, w) - objective(M - h * E, M0inv, vab, vcd, w)) / (2 * h)
     an = float(np.sum(g * E))
     worst = max(worst, abs(fd - an) / (np.linalg.norm(g) + 1.0))
@@ -268,7 +269,7 @@ def check_instance(ml, inst, stats=None):
   for P in ((M, T) if ev[0] >= 1e-4 * ev[-1] else (T,)):      # finite differences are meaningless at a nearly singular M
     e = fd_selftest(P, M0inv, vab, vcd, w, rng)
     stats['fd'] = max(stats.get('fd', 0.0), e)
-    if e > 1e-4:
+    if e > 1e-3:
       out.append(bad(inst, 'stand-in-error', 'oracle gradient and finite differences of the oracle objective disagree: relative %.3g' % e,
                      'oracle self-test', **info))
       return out
